@@ -126,7 +126,7 @@ type listener struct {
 }
 
 func (l *listener) Close() error {
-	defer verifHook("l.close", nil)
+	defer verifHook("l.close", l)
 	l.closed.Store(true)
 	return l.Listener.Close()
 }
@@ -153,10 +153,10 @@ func (l *listener) loop() {
 	go func() {
 		l.wg.Wait()
 		close(l.connChan)
-		verifHook("l.closeChan", nil)
+		verifHook("l.closeChan", l)
 	}()
 	close(l.done)
-	verifHook("l.loopExit", nil)
+	verifHook("l.loopExit", l)
 	for conn := range l.connChan {
 		_ = conn.Close()
 		verifHook("l.drain", conn)
